@@ -102,6 +102,23 @@ structure Slot where
   nodeName  : String
 deriving DecidableEq, Repr
 
+/-- the forms `Slot.__init__` accepts for `cores` / `gpus`: plain dicts (what `as_dict()` gives),
+    bare indices (occupation 1.0) or resource-occupation objects -/
+inductive InitRes where
+  | dicts (l : List (Nat × Nat))
+  | ints  (l : List Nat)
+  | ros   (l : List (Nat × Nat))
+deriving DecidableEq, Repr
+
+def initRes : InitRes → List (Nat × Nat)
+  | .dicts l => l
+  | .ints l  => l.map (fun i => (i, 16))
+  | .ros l   => l
+
+/-- `Slot(from_dict=...)` / `Slot(**kwargs)` -/
+def slotInit (cores gpus : InitRes) (lfs mem nodeIndex : Nat) (nodeName : String) : Slot :=
+  { cores := initRes cores, gpus := initRes gpus, lfs := lfs, mem := mem, nodeIndex := nodeIndex, nodeName := nodeName }
+
 /-- the forms `convert_slots_to_new` accepts for `cores` / `gpus` of an old slot -/
 inductive OldRes where
   | ints  (l : List Nat)                 -- [0, 1, 2]                  -> occupation 1.0
